@@ -196,40 +196,10 @@ def run(ctx: Ctx) -> None:
                                      "(1 node, distance 1) and memoised that way")
     ctx.floor("C11.R3", n3, 2, "relabel_nodes call sites")
 
-    # ---- R4 child's metadata is not aliased / modified
-    rec = [c for c in walk_local(rl.node) if isinstance(c, ast.Call) and call_name(c) == "relabel_nodes"]
-    roots: dict[str, int] = {}
-    for c in rec:
-        st = parent(c)
-        if isinstance(st, ast.Assign) and isinstance(st.targets[0], ast.Tuple):
-            for el in st.targets[0].elts:
-                if isinstance(el, ast.Name):
-                    roots[el.id] = 0
-    if not roots:
-        ctx.ob("C11.R4", rl, rl.node, "recursive fold result", None, "cannot find the unpacked result of the recursive call")
-    else:
-        ma = MutationAnalysis(prog, res, depth=2)
-        # the unpack assignment itself re-binds the names: analyse the statements after it inside the loop
-        loop = next((a for a in ancestors(rec[0]) if isinstance(a, (ast.For, ast.While))), None)
-        body = loop.body if loop is not None else rl.node.body
-        idx = next(i for i, s in enumerate(body) if any(x is rec[0] for x in ast.walk(s)))
-        fake = ast.FunctionDef(name="_fold_tail", args=rl.node.args, body=body[idx + 1:] + [s for s in rl.node.body if s.lineno > (loop.end_lineno if loop else 0)],
-                               decorator_list=[], lineno=rl.node.lineno, col_offset=0)
-        from ..frontend import FunctionInfo as FI
-        tail = FI(rl.module, rl.qualname, fake, rl.cls, rl.parent)
-        muts = ma.analyse(tail, roots)
-        ctx.ob("C11.R4", rl, rl.node, f"child metadata {sorted(roots)} is only read / copied", not muts,
-               "" if not muts else f"'{norm(muts[0].node)[:70]}' ({muts[0].how}) modifies or adopts a list owned by the child's metadata: a later "
-                                   f"sibling is appended to the child's own type index, so inner nodes list nodes that are not beneath them")
-    # stores of the node's own index use a container created in this call
-    stores = [a for a in walk_local(rl.node) if isinstance(a, ast.Assign) and isinstance(a.targets[0], ast.Attribute) and a.targets[0].attr == "gengy_types_this_way"]
-    for a in stores:
-        v = a.value
-        fresh = isinstance(v, ast.Dict) or (isinstance(v, ast.Name) and any(
-            isinstance(d, ast.Assign) and isinstance(d.targets[0], ast.Name) and d.targets[0].id == v.id and isinstance(d.value, (ast.Call, ast.Dict))
-            for d in walk_local(rl.node)))
-        ctx.ob("C11.R4", rl, a, "the node's type index is a container created in this call", fresh,
-               "" if fresh else "the node's index aliases another node's container")
+    # ---- R4 / R5: the fold itself, interpreted (sa/modelinterp; helpers, closures and comprehensions inlined) on an inner node
+    # with two children whose own folds return symbolic metadata
+    ctx.rule("C11.R5", "fold arithmetic: nodes = 1 + sum, depth = max(1, child depth + 1), weighted = sum + depth, type index = own + children's")
+    _fold_model(ctx, rl)
     # cached metadata containers are written by relabel_nodes only
     META = ("gengy_types_this_way",)
 
@@ -251,6 +221,145 @@ def run(ctx: Ctx) -> None:
                                    f"relabel_nodes: the index no longer lists the nodes beneath that node")
     ctx.floor("C11.R4", nmeta, 2, "functions reading the cached type index")
     ctx.assumptions += ["nodes offered as crossover donors and nodes returned by refinement-specific mutate() are (re)labelled by the enclosing node's fold"]
+
+
+def _fold_model(ctx: Ctx, rl: FunctionInfo) -> None:
+    from ..absint import Lin
+    from ..modelinterp import Budget, DDict, Effect, Interp, MaxV, Sym, UNKNOWN, _NONE
+    prog = ctx.prog
+    node_p = rl.params[0]
+    bad: dict[str, str] = {}
+    und = None
+    n = 0
+    for same_type in (False, True):
+        child_types = {"c1": "TC1", "c2": "TC1" if same_type else "TC2"}
+        child_lists: dict[str, list] = {}
+
+        def reset(child_lists=child_lists):
+            child_lists.clear()
+
+        def call_model(it, call, env, args, kwargs, child_types=child_types, child_lists=child_lists):
+            nm = call_name(call)
+            if nm == "getattr" and len(args) >= 2 and isinstance(args[0], Sym) and args[1] == "gengy_labeled":
+                return False
+            if nm == "hasattr" and len(args) == 2 and isinstance(args[0], Sym):
+                return args[1] == "gengy_init_values" and args[0].tag == "node"
+            if nm == "is_terminal":
+                return False
+            if nm in ("is_builtin", "is_abstract"):
+                return False
+            if nm == "type" and len(args) == 1 and isinstance(args[0], Sym):
+                return Sym("type:" + (child_types.get(args[0].tag, args[0].tag)))
+            if nm == "get_arguments":
+                return [["f1", Sym("T1")], ["f2", Sym("T2")]]
+            if nm == rl.name and isinstance(call.func, ast.Name):
+                c_ = args[0]
+                t = c_.tag if isinstance(c_, Sym) else "?"
+                lst = [c_]
+                child_lists[t] = lst
+                flag = args[2] if len(args) > 2 else kwargs.get("is_list", False)
+                it.trace.append(Effect("call", "relabel_child", (c_, flag), {}, node=call))
+                return [Lin.sym(f"n_{t}"), Lin.sym(f"d_{t}"), {"type:" + child_types.get(t, t): lst}, Lin.sym(f"w_{t}")]
+            if nm == "defaultdict":
+                return DDict()
+            if nm == "isinstance" and len(args) == 2 and isinstance(args[0], Sym):
+                return False
+            return None
+
+        it = Interp(prog, None, lambda *_: None, call_model, max_depth=5, max_traces=32)
+        it.on_start = reset
+        env = {node_p: Sym("node"), rl.params[1]: Sym("grammar"), f"{node_p}.gengy_init_values": [Sym("c1"), Sym("c2")],
+               f"{rl.params[1]}.expansion_depthing": False}
+        for p_ in rl.params[2:]:
+            env[p_] = False
+        try:
+            runs = it.run(rl, env)
+        except Budget:
+            und = "too many interpretations"
+            continue
+        for trace, rv, notes in runs:
+            if any(e.kind == "raise" for e in trace):
+                continue
+            n += 1
+            if not (isinstance(rv, list) and len(rv) == 4):
+                und = und or f"the fold's result is not followed ({rv!r})"
+                continue
+            nodes, dist, types, weighted = rv
+            from ..modelinterp import _lin
+            if not isinstance(nodes, Lin) and _lin(nodes) is not None:
+                nodes = _lin(nodes)
+            if not isinstance(dist, (Lin, MaxV)) and _lin(dist) is not None:
+                dist = _lin(dist)
+            if not isinstance(weighted, (Lin, MaxV)) and _lin(weighted) is not None:
+                weighted = _lin(weighted)
+            n1, n2, d1, d2, w1, w2 = (Lin.sym(x) for x in ("n_c1", "n_c2", "d_c1", "d_c2", "w_c1", "w_c2"))
+            one = Lin.c(1)
+            if nodes != one + n1 + n2:
+                if isinstance(nodes, Lin):
+                    bad.setdefault("nodes", f"an inner node with children of n_c1 and n_c2 nodes gets gengy_nodes = {nodes!r}, expected 1 + n_c1 + n_c2")
+                else:
+                    und = und or f"node count not followed ({nodes!r})"
+            want_items = {one, d1 + one, d2 + one}
+            if isinstance(dist, MaxV) and dist.kind == "max" and isinstance(dist.offset, Lin) or (isinstance(dist, MaxV) and dist.offset == 0):
+                off = dist.offset if isinstance(dist.offset, Lin) else Lin.c(dist.offset)
+                items = {x + off for x in dist.items}
+                if not (items == want_items or items == {d1 + one, d2 + one}):
+                    bad.setdefault("depth", f"gengy_distance_to_term = {dist!r}, expected max(1, d_c1 + 1, d_c2 + 1)")
+            elif isinstance(dist, Lin):
+                bad.setdefault("depth", f"gengy_distance_to_term = {dist!r}: not the maximum over the children")
+            else:
+                und = und or f"depth not followed ({dist!r})"
+            if isinstance(weighted, MaxV) and isinstance(dist, MaxV):
+                woff = weighted.offset if isinstance(weighted.offset, Lin) else Lin.c(weighted.offset)
+                doff = dist.offset if isinstance(dist.offset, Lin) else Lin.c(dist.offset)
+                if not (set(weighted.items) == set(dist.items) and woff - doff == w1 + w2):
+                    bad.setdefault("weighted", f"gengy_weighted_nodes = {weighted!r}, expected w_c1 + w_c2 + depth")
+            elif isinstance(weighted, Lin):
+                bad.setdefault("weighted", f"gengy_weighted_nodes = {weighted!r}: the node's own depth points are not added")
+            else:
+                und = und or f"weighted count not followed ({weighted!r})"
+            # type index: own entry + the children's, children's lists neither adopted nor extended
+            if isinstance(types, dict):
+                own = types.get("type:node")
+                if own != [Sym("node")]:
+                    bad.setdefault("types", f"the node's own entry in its type index is {own!r}, expected [node]")
+                for t, ct in child_types.items():
+                    pass
+                want = {"type:TC1": [Sym("c1"), Sym("c2")]} if same_type else {"type:TC1": [Sym("c1")], "type:TC2": [Sym("c2")]}
+                for k, v in want.items():
+                    if types.get(k) != v:
+                        bad.setdefault("types", f"the type index lists {types.get(k)!r} under {k}, expected {v!r}")
+                for t, lst in child_lists.items():
+                    if lst != [Sym(t)]:
+                        bad.setdefault("alias", f"the fold of the parent changes the child {t}'s own type index to {lst!r}: a later sibling is appended to the "
+                                                f"child's list, so inner nodes list nodes that are not beneath them")
+                    if any(v is lst for v in types.values()):
+                        bad.setdefault("alias", f"the parent's type index adopts the list object owned by child {t}'s metadata: later additions to the "
+                                                f"parent's index change the child's")
+            else:
+                und = und or "type index not followed"
+            # what is stored on the node is what is returned
+            stores = {e.name.split(".", 1)[1]: e.args[0] for e in trace if e.kind == "store" and e.name.startswith("node.gengy_")}
+            for attr, val in (("gengy_nodes", nodes), ("gengy_distance_to_term", dist), ("gengy_weighted_nodes", weighted)):
+                if attr in stores and repr(stores[attr]) != repr(val):
+                    bad.setdefault("stored", f"node.{attr} is set to {stores[attr]!r} but {val!r} is returned to the parent")
+                elif attr not in stores:
+                    bad.setdefault("stored", f"node.{attr} is never stored")
+            flags = [e.args[1] for e in trace if e.kind == "call" and e.name == "relabel_child"]
+            if any(f_ is not False for f_ in flags):
+                bad.setdefault("flag", f"children that are not lists are folded with is_list = {flags!r}")
+    for key, rule, desc in (("nodes", "C11.R5", "gengy_nodes of an inner node = 1 + the children's"),
+                            ("depth", "C11.R5", "gengy_distance_to_term = max(1, children's + 1)"),
+                            ("weighted", "C11.R5", "gengy_weighted_nodes = the children's + the node's depth"),
+                            ("types", "C11.R5", "the type index holds the node itself and every node of the children's indexes, in order"),
+                            ("stored", "C11.R5", "the metadata stored on the node is the metadata handed to its parent"),
+                            ("alias", "C11.R4", "the fold neither adopts nor extends a list owned by a child's metadata"),
+                            ("flag", "C11.R3", "the recursive fold passes is_list = isinstance(child, list)")):
+        b = bad.get(key)
+        if key == "flag" and not b:
+            continue
+        ctx.ob(rule, rl, rl.node, f"relabel_nodes: {desc}", False if b else (None if und else True), b or und or "", witness={"scenarios": n})
+    ctx.floor("C11.R5", n, 2, "interpreted fold scenarios")
 
 
 def _in_annotation(x: ast.AST) -> bool:
